@@ -51,7 +51,7 @@ Definition obs_e (ver : N) (h : list N) (recs : list (list N)) : option bytes :=
   end.
 
 (* exhaustive table dumps, compared with the compiled crate's (tools: `tables`) *)
-Definition tbl_proto (b : N) : N * N * option N := (proto_from_u8 b, proto_to_u8 (proto_from_u8 b), proto_parse b).
+Definition tbl_proto (b : N) : N * N * option N := (proto_from_u8 b, proto_to_u8 (proto_from_u8 b), Some (proto_decode b)).
 Definition tbl_proto_name (d : N) : bytes := str_bytes (variant_name proto_variants d).
 Definition tbl_v9 (n : N) : N * dtype := (v9_from_u16 n, v9_dtype (v9_from_u16 n)).
 Definition tbl_v9_name (d : N) : bytes := str_bytes (variant_name v9_variants d).
